@@ -210,6 +210,10 @@ def generate(rng, tier):
     for word in ('true', 'false'):
         for mask in range(1 << len(word)):
             bstr.append(''.join(c.upper() if mask >> i & 1 else c for i, c in enumerate(word)))
+    # the exact words padded with blanks are other strings (only the empty string and the words themselves are special)
+    for word in ('true', 'false', 'TRUE', 'False'):
+        for pad in (' ', '\t', '\n', '\r', '\x0b', '\x0c', '\x1f', '\xa0', '\u3000'):
+            bstr += [pad + word, word + pad, pad + word + pad]
     for s in bstr:
         cases.append((STRING, BOOL, s))
     # strings -> date
